@@ -72,6 +72,15 @@ def inconsistencies(ds):
                            ("nodesCanBoard", "1, 1, 1, 1, 1, 1, 1, 1"), ("nodesCanUnboard", "1, 1, 1, 1, 1, 1, 1, 1")):
             e[1] = sub_first(e[1], fld + r' = \[([^\]]*)\]', lambda m: fld + ' = [' + m.group(1) + (', ' if m.group(1).strip() else '') + extra + ']')
         out.append(("trip_too_many_stop_times", (c, n, l)))
+    # exactly one stop time more (later than the last one): the boundary of the count test
+    c, n, l = clone(); e = first_line_with_trip(l)
+    if e:
+        md = re.search(r'nodeDepartureTimesSeconds = \[([^\]]*)\]', e[1])
+        last = [x.strip() for x in md.group(1).split(",") if x.strip()] if md else []
+        x = str(int(last[-1]) + 60) if last else "60"
+        for fld, extra in (("nodeArrivalTimesSeconds", x), ("nodeDepartureTimesSeconds", x), ("nodesCanBoard", "1"), ("nodesCanUnboard", "1")):
+            e[1] = sub_first(e[1], fld + r' = \[([^\]]*)\]', lambda m, extra=extra, fld=fld: fld + ' = [' + m.group(1) + (', ' if m.group(1).strip() else '') + extra + ']')
+        out.append(("trip_one_more_stop_time", (c, n, l)))
     # unequal array lengths
     c, n, l = clone(); e = first_line_with_trip(l)
     if e:
